@@ -72,7 +72,7 @@ func stEndlessProbe(res *Result) {
 			}
 			// settle: the rewriter may finish the write it was in; after that its reads have to cease
 			var quiet bool
-			deadline := time.Now().Add(5 * time.Second)
+			deadline := time.Now().Add(20 * time.Second)
 			for time.Now().Before(deadline) {
 				a := src.reads.Load()
 				time.Sleep(150 * time.Millisecond)
@@ -85,7 +85,7 @@ func stEndlessProbe(res *Result) {
 			src.Close()
 			if !quiet {
 				res.problem(Problem{Kind: "oracle", Stream: "streams", Case: caseText,
-					Msg: fmt.Sprintf("C17: %d bytes of the %s stream were read and the stream closed, yet the rewriter is still reading its (endless) source 5 s later (%d reads so far): the producing goroutine does not finish when the consumer stops", k, kind, n0)})
+					Msg: fmt.Sprintf("C17: %d bytes of the %s stream were read and the stream closed, yet the rewriter is still reading its (endless) source 20 s later (%d reads so far): the producing goroutine does not finish when the consumer stops", k, kind, n0)})
 			}
 		}
 	}
